@@ -76,6 +76,9 @@ UNMARSHAL_INPUTS = [
     "datetime.time(1, 2, tzinfo=datetime.timezone.utc)", "datetime.timedelta(seconds=5)", "[None]", "{'a': None}", "'2'.encode()",
     # numbers a temporal member rejects with yet another error class (the platform's timestamp conversion: OSError / OverflowError)
     "2**62", "-2**63", "10**18", "1e18", "'1000000000000000000'", "2**63 - 1", "7 * 10**16",
+    # text in the other carriers: every member looks at the very same input object, one after the other
+    "memoryview(b'abc')", "memoryview(b'5')", "bytearray(b'1.5')", "memoryview(bytearray(b'2020-01-02'))", "memoryview(b'[1, 2]')",
+    "bytearray(b'a')", "memoryview(b'00000000-0000-0000-0000-000000000005')",
 ]
 MARSHAL_INPUTS = [
     "None", "True", "0", "1", "-5", "10**20", "1.5", "''", "'a'", "'1'", "'abc'", "2", "'2020-01-02'",
@@ -111,16 +114,31 @@ _REF_U = {}
 _REF_M = {}
 
 
-def reference(members, none_pos, x, direction):
+_CODE = {}
+
+
+def fresh(src):
+    """a new object for every call (stateful carriers): no member routine sees an input another call has already looked at"""
+    c = _CODE.get(src)
+    if c is None:
+        c = _CODE[src] = compile(src, "<input>", "eval")
+        if not src.startswith(("memoryview", "bytearray")):
+            _CODE[src] = c = ("obj", eval(c, dict(NS)))  # noqa: S307  (immutable inputs: one object, as before)
+    if isinstance(c, tuple):
+        return c[1]
+    return eval(c, dict(NS))  # noqa: S307
+
+
+def reference(members, none_pos, src, direction):
     """first-acceptor reference from independently built member routines"""
     order = [POOL[m] for m in members]
     has_none = none_pos is not None
-    if has_none and x is None:
+    if has_none and fresh(src) is None:
         return ("ok", snapshot(None)), 0, set()
     rejected_with = set()
     for i, t in enumerate(order):
         r = (tl.unmarshaller(t) if direction == "unmarshal" else tl.marshaller(t))
-        k, v = tl.call(r, x)
+        k, v = tl.call(r, fresh(src))
         if k == "ok":
             return ("ok", snapshot(v)), i, rejected_with
         rejected_with.add(type(v).__name__)
@@ -153,10 +171,9 @@ def check_union(members, none_pos, spelling, col, inputs_u=UNMARSHAL_INPUTS, inp
                           f"{direction}r({expr}) raised {tl.exc_name(routine)}: {routine}", bucket=tl.exc_name(routine))
             continue
         for src in pool:
-            x = eval(src, dict(NS))  # noqa: S307
             col.ev()
-            want, idx, rej = reference(members, none_pos, x, direction)
-            k, v = tl.call(routine, x)
+            want, idx, rej = reference(members, none_pos, src, direction)
+            k, v = tl.call(routine, fresh(src))
             got = ("ok", snapshot(v)) if k == "ok" else ("exc", tl.exc_name(v))
             nontriv = (idx not in (0, None)) or (none_pos is not None and none_pos != len(members)) or bool(rej - {"ValueError", "TypeError"})
             if nontriv:
@@ -175,7 +192,7 @@ def check_union(members, none_pos, spelling, col, inputs_u=UNMARSHAL_INPUTS, inp
                               bucket=f"{'raises' if got[0] == 'exc' else 'returns'}|want-{'raises' if want[0] == 'exc' else 'returns'}|{got[1] if got[0] == 'exc' else ''}"[:100])
             # the public entry point (the statement's own observation point) must say the same as the routine
             col.ev()
-            k2, v2 = tl.call(tl.unmarshal, T, x) if direction == "unmarshal" else tl.call(tl.marshal, x, t=T)
+            k2, v2 = tl.call(tl.unmarshal, T, fresh(src)) if direction == "unmarshal" else tl.call(tl.marshal, fresh(src), t=T)
             got2 = ("ok", snapshot(v2)) if k2 == "ok" else ("exc", tl.exc_name(v2))
             if got2 != want:
                 col.violation(f"{direction}-first-acceptor",
@@ -185,6 +202,38 @@ def check_union(members, none_pos, spelling, col, inputs_u=UNMARSHAL_INPUTS, inp
     col.label(f"len:{len(members)}")
     col.label(f"spelling:{spelling}")
     col.label("none:absent" if none_pos is None else ("none:last" if none_pos == len(members) else "none:not-last"))
+
+
+def check_warm_sequence(seq, col):
+    """A history of unions with pairwise different member sets (so no two of them compare equal), each written inline
+    and dropped right after the call - the way annotations appear in user code (`unmarshal(int | str, x)`) - with warm
+    caches: the outcome must still be the first acceptor's, whatever objects lived at the same address before."""
+    tl.clear_all()
+    for step, (members, none_pos, picks) in enumerate(seq):
+        expr = union_expr(members, none_pos, "pipe")
+        args = typing.get_args(eval(expr, dict(NS)))  # noqa: S307
+        inv = {v: k for k, v in POOL.items()}
+        real = tuple(inv[a] for a in args if a is not type(None))
+        nones = [i for i, a in enumerate(args) if a is type(None)]
+        npos = nones[0] if nones else None
+        for direction, pool in (("unmarshal", UNMARSHAL_INPUTS), ("marshal", MARSHAL_INPUTS)):
+            for pk in picks:
+                src = pool[pk % len(pool)]
+                col.ev()
+                want, idx, _rej = reference(real, npos, src, direction)
+                if direction == "unmarshal":
+                    k, v = tl.call(lambda: tl.unmarshal(eval(expr, dict(NS)), fresh(src)))  # noqa: S307
+                else:
+                    k, v = tl.call(lambda: tl.marshal(fresh(src), t=eval(expr, dict(NS))))  # noqa: S307
+                got = ("ok", snapshot(v)) if k == "ok" else ("exc", tl.exc_name(v))
+                if step:
+                    col.nt(f"warm|{step}|{expr}|{direction}|{src}")
+                col.label("warm-inline-union")
+                if got != want:
+                    col.violation(f"{direction}-first-acceptor",
+                                  {"warm": [[list(m), n, list(pk_)] for m, n, pk_ in seq[:step + 1]], "direction": direction, "input": src},
+                                  f"step {step} of a warm history: typelib.{direction}({expr}, {src}) -> {_d(got)}, reference (member #{idx}) -> {_d(want)}",
+                                  bucket=f"warm|{'raises' if got[0] == 'exc' else 'returns'}|want-{'raises' if want[0] == 'exc' else 'returns'}")
 
 
 def _d(o):
@@ -208,6 +257,8 @@ def plan(tier, seed):
     else:
         for i in range(8):
             shards.append({"kind": "sample4", "seed": seed * 1000 + i, "n": 60})
+    for i in range(4):
+        shards.append({"kind": "warm", "seed": seed * 1000 + 50 + i, "n": 150 if tier == "quick" else 3000})
     return shards
 
 
@@ -222,6 +273,25 @@ def run_shard(shard, col):
         col.exhaustive_done = True
         return
     from harness.core import st
+
+    if shard["kind"] == "warm":
+        @st.composite
+        def history(draw):
+            seq, seen = [], set()
+            for _ in range(draw(st.integers(3, 8))):
+                k = draw(st.integers(2, 3))
+                members = tuple(draw(st.permutations(NAMES))[:k])
+                none_pos = draw(st.sampled_from([None, None, *range(k + 1)]))
+                key = (frozenset(members), none_pos is not None)
+                if key in seen:
+                    continue
+                seen.add(key)
+                seq.append((members, none_pos, draw(st.lists(st.integers(0, 200), min_size=2, max_size=4))))
+            return seq
+
+        core.drive(history(), lambda sq: check_warm_sequence(sq, col), n=shard["n"], seed=shard["seed"], col=col)
+        col.exhaustive_done = True
+        return
 
     @st.composite
     def u4(draw):
@@ -239,6 +309,9 @@ def exhaustive(tier):
 
 
 def replay(clause, case, col):
+    if "warm" in case:
+        check_warm_sequence([(tuple(m), n, list(pk)) for m, n, pk in case["warm"]], col)
+        return
     src = case.get("input")
     pool_u = [src] if (src and case["direction"] == "unmarshal") else []
     pool_m = [src] if (src and case["direction"] == "marshal") else []
